@@ -1007,7 +1007,7 @@ func (cw *c12World) replay(c c12Case) []ev.Finding {
 }
 
 func runC12(replay string) int {
-	run := ev.NewRun("C12", "exploration")
+	run := ev.NewRun("C12", "model_checking")
 	run.Assumptions = []string{
 		"programs are executed at keeper level through the real NewStateDB + NewEVM + evm.Call + CommitMultiStore on CacheContext branches of one prepared state (no ante handler, no fees, value 0 on every call)",
 		"every frame is the same generic forwarder contract at its own address; forwarders write nothing themselves, so every observed effect comes from the precompile",
